@@ -263,10 +263,10 @@ class Generator:
                 self.expand(inc)
                 i += 1
                 continue
-            if st.startswith("//@@ fn ") or st.startswith("//@@ type ") or st.startswith("//@@ lemma"):
+            if st.startswith("//@@ fn ") or st.startswith("//@@ type ") or st.startswith("//@@ lemma") or st.startswith("//@@ macro "):
                 j = i + 1
                 while j < len(lines) and lines[j].strip() != "//@@ end":
-                    if re.match(r"\s*//@@ (fn|type|lemma)\b", lines[j]):
+                    if re.match(r"\s*//@@ (fn|type|lemma|macro)\b", lines[j]):
                         raise ValueError("%s:%d: nested directive (missing //@@ end?)" % (tpl_path, j + 1))
                     j += 1
                 if j >= len(lines):
@@ -349,6 +349,37 @@ class Generator:
             # payload of the lemma = everything that is not a directive line
             txt = [l for l in body if not l.strip().startswith("//@@")]
             self.emit_lemma(unit, txt)
+            unit.gen_end = self.w.line - 1
+            self.units.append(unit)
+            return
+        if kind == "macro":
+            # T9: rustc's own expansion of construct! for a small arity
+            import expand
+            which = rest.split()[1]
+            work = os.environ.get("VERIF_EXPAND_DIR") or os.path.join(os.path.dirname(os.path.dirname(os.path.abspath(__file__))), "out", "expand")
+            head, body = expand.expand_construct(self.root, work)[which]
+            unit.kind = "fn"
+            unit.src_file = "src/lib.rs"
+            unit.selector = "macro_rules! construct (@fin arm), rustc -Zunpretty=expanded, client fn %s" % which
+            msrc = Source.get(self.root, "src/lib.rs")
+            mi = [i for i in msrc.items if i.kind == "macro_rules!" and i.name == "construct"]
+            if not mi:
+                raise AnchorError("src/lib.rs: macro_rules! construct not found")
+            unit.src_line = msrc.toks[mi[0].kw].line
+            unit.src_end_line = msrc.toks[mi[0].close].line
+            unit.gen_start = self.w.line
+            self.w.emit(head + "\n")
+            base = self.w.line
+            for off, l in enumerate(main_opts["spec"]):
+                m = LABEL_RE.search(l)
+                if m:
+                    unit.labels[base + off] = m.group(1)
+            self.w.emit("\n".join(main_opts["spec"]) + "\n")
+            unit.has_requires = True
+            unit.insertions.append("closure contract spliced on the closure header")
+            if self.canary:
+                body = "{ proof { assert(false); } " + body[1:]
+            self.w.emit(body + "\n")
             unit.gen_end = self.w.line - 1
             self.units.append(unit)
             return
